@@ -46,6 +46,7 @@ def setup(ctx):
     ctx.require("monitor", "calls_with_neighbour_pins", 30)
     ctx.require("monitor", "cli_get_calls", 12)
     ctx.require("monitor", "calls_after_neighbour_admin", 21)
+    ctx.require("monitor", "calls_after_restore", 12)
     ctx.require("monitor", "calls", 31)
     ctx.require("monitor", "failed_verifications", 19)
     ctx.require("monitor", "verify_returns_seen", 29)
@@ -328,6 +329,8 @@ def run(ctx):
                 run_cli_get(ctx, peer, idents, state, tmp, mon)
             if ctx.mine(k + 8):
                 run_after_neighbour_admin(ctx, peer, idents, state, tmp, mon)
+            if ctx.mine(k + 9):
+                run_after_restore(ctx, idents, state, tmp, behaviour)
             # ---- concurrent calls on one client
             if ctx.mine(k + 1):
                 run_concurrent(ctx, peer, idents, state, tmp, mon)
@@ -641,6 +644,94 @@ def run_after_neighbour_admin(ctx, peer, idents, state, tmp, mon):
                 elif res[0] == "response":
                     ctx.undecided("after-neighbour-admin: verification did not fail (see C03)")
                 ctx.case(("after-neighbour-admin", op, admin, res[0], bool(received)), True, sample=wit)
+    finally:
+        if old_home is None:
+            os.environ.pop("HOME", None)
+        else:
+            os.environ["HOME"] = old_home
+
+
+def run_after_restore(ctx, idents, state, tmp, behaviour):
+    """The pin store is backed up and restored (export_toml, then import_toml replacing everything - by library and
+    by `nauyaca tofu export` / `import`): hosts addressed by name, by IPv4 and by IPv6 literal are pinned exactly as
+    before, a changed certificate still stops the request."""
+    from cryptography import x509
+    from typer.testing import CliRunner
+
+    from nauyaca.__main__ import app
+    from nauyaca.client.session import GeminiClient
+    from nauyaca.security.tofu import CertificateChangedError, TOFUDatabase
+
+    good = x509.load_der_x509_certificate(idents["good"].der)
+    old_home = os.environ.get("HOME")
+    try:
+        for bind, host_in_url, pin_name in (("127.0.0.1", "127.0.0.1", "127.0.0.1"), ("::1", "[::1]", "::1"), ("127.0.0.1", "pinned.test", "pinned.test"), ("::1", "[0:0:0:0:0:0:0:1]", "0:0:0:0:0:0:0:1")):
+            try:
+                p6 = peers.ScriptedPeer(idents["good"], behaviour, host=bind, name="restore-" + bind)
+            except OSError as e:
+                ctx.undecided(f"after-restore: cannot listen on {bind}: {e}")
+                continue
+            with p6:
+                for op in ("get", "upload", "delete"):
+                    for how in ("library", "cli"):
+                        home = os.path.join(tmp, f"rst-{pin_name.replace(':', '_')}-{op}-{how}")
+                        os.makedirs(os.path.join(home, ".nauyaca"))
+                        dbp = Path(home) / ".nauyaca" / "tofu.db"
+                        db = TOFUDatabase(dbp)
+                        state.update(mode="eager", redirect_to=None)
+                        state["go"].set()
+                        p6.swap_cert(idents["good"])
+                        # the pin is made by a real first contact, under whatever name the client derives from the URL
+                        url = f"gemini://{host_in_url}:{p6.port}/private?q=SECRETQUERY"
+                        first = GeminiClient(timeout=6, trust_on_first_use=True, tofu_db_path=dbp)
+                        try:
+                            asyncio.run(first.get(url))
+                        except Exception as e:  # noqa: BLE001
+                            ctx.undecided(f"after-restore: first contact failed: {type(e).__name__}")
+                            continue
+                        p6.wait_idle(3)
+                        backup = os.path.join(home, "backup.toml")
+                        if how == "library":
+                            db.export_toml(Path(backup))
+                            db.import_toml(Path(backup), merge=False)
+                        else:
+                            os.environ["HOME"] = home
+                            r1 = CliRunner().invoke(app, ["tofu", "export", backup])
+                            r2 = CliRunner().invoke(app, ["tofu", "import", backup, "--replace"], input="y\ny\n")
+                            if r1.exit_code != 0 or r2.exit_code != 0:
+                                ctx.undecided(f"after-restore: cli export/import exited {r1.exit_code}/{r2.exit_code}")
+                                continue
+                        p6.swap_cert(idents["other"])
+                        client = GeminiClient(timeout=6, trust_on_first_use=True, tofu_db_path=dbp)
+                        n0 = len(p6.log)
+
+                        async def call():
+                            if op == "get":
+                                return await client.get(url)
+                            if op == "delete":
+                                return await client.delete(url, token="SECRETTOKEN")
+                            return await client.upload(url, b"SECRET" * 30, mime_type="text/plain", token="SECRETTOKEN")
+
+                        try:
+                            resp = asyncio.run(call())
+                            res = ("response", resp.status)
+                        except CertificateChangedError:
+                            res = ("changed",)
+                        except BaseException as e:  # noqa: BLE001
+                            res = ("error", type(e).__name__)
+                        p6.wait_idle(3)
+                        received = b"".join(x["received"] for x in p6.log[n0:])
+                        ctx.count("monitor", "calls")
+                        ctx.count("monitor", "failed_verifications")
+                        ctx.count("monitor", "calls_after_restore")
+                        wit = {"operation": op, "host_in_url": host_in_url, "before": f"first contact pinned it; the store was exported and imported (replace) by {how}", "result": res,
+                               "peer_received_len": len(received), "peer_received_head": received[:100]}
+                        if received:
+                            ctx.violation(f"peer-received-bytes:entry={op}:pin=changed:after=backup-restore:host={'ipv6-literal' if ':' in pin_name else 'name-or-ipv4'}",
+                                          f"{len(received)} request bytes reached a peer whose certificate differs from the pin (the pin did not survive the restore)", wit)
+                        elif res[0] == "response":
+                            ctx.undecided("after-restore: verification did not fail (see C03)")
+                        ctx.case(("after-restore", op, how, host_in_url, res[0], bool(received)), True, sample=wit)
     finally:
         if old_home is None:
             os.environ.pop("HOME", None)
